@@ -1,0 +1,19 @@
+//go:build verif
+
+package rewriter
+
+import (
+	"os"
+	"os/exec"
+)
+
+// verifKeepTmp copies the unoptimised stage output to $VERIF_KEEP_TMP before it is removed.
+// Verification hook: compiled only with -tags verif.
+func verifKeepTmp(tmpOutputDir string) {
+	dst := os.Getenv("VERIF_KEEP_TMP")
+	if dst == "" {
+		return
+	}
+	_ = os.RemoveAll(dst)
+	_ = exec.Command("cp", "-r", tmpOutputDir, dst).Run()
+}
